@@ -65,3 +65,95 @@ elif which=='trie-if-chain':
 				t.max = char
 			}''','''			t.min = min(t.min, char)
 			t.max = max(t.max, char)''')
+
+elif which=='flush-helper':
+    sub('eval/eval.go','''	var output []byte
+	if buf.Len() > 0 {
+		output = buf.Bytes()
+		_, err := s.Out.Write(output)
+		if err != nil {
+			log.Warnf("output: %v", err)
+		}
+	}
+''','''	output := s.flushCaptured(&buf)
+''')
+    sub('eval/eval.go','func (s *State) applyFunction(','''// flushCaptured writes what a call printed to the (restored) output and returns it for the cache.
+func (s *State) flushCaptured(buf *bytes.Buffer) []byte {
+	if buf.Len() == 0 {
+		return nil
+	}
+	output := buf.Bytes()
+	if _, err := s.Out.Write(output); err != nil {
+		log.Warnf("output: %v", err)
+	}
+	return output
+}
+
+func (s *State) applyFunction(''')
+elif which=='index-cond-rewrite':
+    sub('eval/eval.go','if idx < 0 || idx > maxV {','if idx < 0 || idx >= int64(object.Len(array)) {')
+elif which=='reset-helper':
+    sub('eval/eval_api.go','''	s.env = s.rootEnv
+	s.depth = 0
+	s.PipeVal = nil
+}''','''	s.resetScope()
+	s.depth = 0
+	s.PipeVal = nil
+}
+
+func (s *State) resetScope() {
+	s.env = s.rootEnv
+}''')
+elif which=='cmpkeys-var':
+    sub('object/object.go','func CompareKeys(a, b keyValuePair) int {\n\treturn Cmp(a.Key, b.Key)','func CompareKeys(a, b keyValuePair) int {\n\tres := Cmp(a.Key, b.Key)\n\treturn res')
+elif which=='modify-fieldwise':
+    sub('ast/modify.go','newNode := &ArrayLiteral{Base: node.Base, Elements: make([]Node, len(node.Elements))}','newNode := &ArrayLiteral{}\n\t\tnewNode.Base = node.Base\n\t\tnewNode.Elements = make([]Node, len(node.Elements))')
+elif which=='autoload-reader':
+    sub('repl/repl.go','''	scanner := bufio.NewScanner(f)
+	scanner.Buffer(nil, math.MaxInt) // a saved value or function can be longer than the default 64k line limit.
+	count := 0
+	errorCount := 0
+	var errs []error
+	for scanner.Scan() {
+		line := scanner.Text()
+''','''	reader := bufio.NewReader(f)
+	count := 0
+	errorCount := 0
+	var errs []error
+	for {
+		line, rerr := reader.ReadString('\\n')
+		line = strings.TrimSuffix(line, "\\n")
+		if rerr != nil && line == "" {
+			if !errors.Is(rerr, io.EOF) {
+				errs = append(errs, rerr)
+			}
+			break
+		}
+''')
+    sub('repl/repl.go','''	if err = scanner.Err(); err != nil {
+		errorCount++
+		errs = append(errs, err)
+		log.Errf("Error reading autoload file %s: %v", AutoSaveFile, err)
+	}
+''','''	_ = math.MaxInt
+''')
+elif which=='freememory-order':
+    sub('object/memory.go','''	var memStats runtime.MemStats
+	runtime.ReadMemStats(&memStats)
+	currentAlloc := memStats.HeapAlloc
+	// retrieve the current limit.
+	gomemlimit := debug.SetMemoryLimit(-1)
+''','''	// retrieve the current limit.
+	gomemlimit := debug.SetMemoryLimit(-1)
+	var memStats runtime.MemStats
+	runtime.ReadMemStats(&memStats)
+	currentAlloc := memStats.HeapAlloc
+''')
+elif which=='definemacros-while':
+    sub('eval/macro_expension.go','for i := 0; i < len(program.Statements); /* not always incrementing */ {','i := 0\n\tfor i < len(program.Statements) {')
+elif which=='smallmap-get-classic':
+    sub('object/object.go','\tfor i := range m.len {\n\t\tc := Cmp(m.smallKV[i].Key, key)','\tfor i := 0; i < m.len; i++ {\n\t\tc := Cmp(m.smallKV[i].Key, key)')
+elif which=='allbytes-minmax':
+    sub('trie/trie.go','\tif t.leaf {\n\t\treturn longest, res\n\t}','\tif t.leaf || t.min > t.max {\n\t\treturn longest, res\n\t}')
+elif which=='release-named':
+    sub('eval/eval.go','defer s.env.ReleaseRegister(register)','env := s.env\n\t\tdefer env.ReleaseRegister(register)')
